@@ -46,6 +46,9 @@ type Spec struct {
 	New func(c *sim.Case) Instance
 	// Check is the oracle; nil = property held on this run.
 	Check func(run *Run) *sim.Violation
+	// Bounded says whether an operation must finish by itself (timed and non-blocking calls) as
+	// opposed to one that may legitimately wait for another thread for ever.
+	Bounded func(op sim.Op) bool
 }
 
 var polNames = map[string]int{"uniform": core.PolUniform, "sticky": core.PolSticky, "pct": core.PolPCT, "script": core.PolScript}
@@ -82,6 +85,9 @@ func Exec(spec *Spec, c *sim.Case, script []int16, strict, keepLog bool, out *si
 		prog := c.Programs[t]
 		for i := range prog {
 			call := core.OpBegin()
+			if spec.Bounded != nil && spec.Bounded(prog[i]) {
+				core.OpBounded()
+			}
 			recs[t][i].Call = call
 			recs[t][i].Started = true
 			r := inst.Do(t, prog[i])
